@@ -296,8 +296,8 @@ theorem someFieldRefs_containsSelf (e : Expr) (h : e.someFieldRefs = true) : e.c
 
 /-! ## non-vacuity: `forall i in @A.xs: (@i > @B.y[@C.z])` -/
 def sampleC15 : Expr :=
-  .quant 1 .all "i" (.field 8 (.var 64 "A") "xs")
-    (.bin 1 ">" (.var 2 "i") (.index 2 (.field 8 (.var 64 "B") "y") (.field 2 (.var 64 "C") "z")))
+  .quant Gen.BOOL .all "i" (.field Gen.ARRAY (.var Gen.MESSAGE "A") "xs")
+    (.bin Gen.BOOL ">" (.var Gen.NUMBER "i") (.index Gen.NUMBER (.field Gen.ARRAY (.var Gen.MESSAGE "B") "y") (.field Gen.NUMBER (.var Gen.MESSAGE "C") "z")))
 example : sampleC15.quantOK := by simp [sampleC15, Expr.quantOK, Expr.freeVars]
 example : sampleC15.externalRefs = .ok ["A", "B", "C"] := by rfl
 example : sampleC15.containsRef "i" = true ∧ sampleC15.containsDef "i" = true ∧ sampleC15.containsSelf = false := by decide
